@@ -407,6 +407,9 @@ tj_serde!(
     BodyValue, HdrValue, CollHdr, AttrTup, HBodyTup
 );
 
+// the combination battery (generated, together with specs/FormDocCombos.tla, by checks/c16.py)
+include!("../form_combos.rs");
+
 // ------------------------------------------------------------------ observations
 
 fn typed<T: TJ, E: std::fmt::Display>(r: Result<T, E>) -> J {
@@ -682,6 +685,9 @@ fn run_case(case: &J) -> J {
         return json!({ "types": TYPES });
     }
     let ty = case["ty"].as_str().expect("ty");
+    if let Some(r) = dispatch_combo(ty, case) {
+        return r;
+    }
     if let Some((pos, kind)) = ty.split_once('_') {
         return dispatch_pos(pos, kind, case);
     }
